@@ -6,6 +6,7 @@ import (
 	"go/token"
 	"go/types"
 	"sort"
+	"strconv"
 	"strings"
 
 	"golang.org/x/tools/go/ssa"
@@ -29,6 +30,7 @@ func runC11(c *Check, tier string) {
 	ruleMemoKeyComplete(c, "R11h", "analysis", "dag", "model")
 	// the root package has one spelling in labels
 	ruleRootPackageCanonical(c, "R11i", 3)
+	ruleR11j(c)
 }
 
 func isNoReturnCall(in ssa.Instruction) bool {
@@ -164,6 +166,39 @@ func ruleR11a(c *Check) {
 			}
 		}
 		c.Require(ok, "R11a", "constraints-before-execute/"+fname, "the executor is reachable only through `len(constraint errors) == 0`", "the executor can be started although the target-constraint check (escaping inputs/outputs, test/testonly dependencies) reported errors, or without running it", c.P.Pos(fn.Pos()))
+		// the check is given every node of the loaded graph, not a selection of it
+		getNodes := c.P.Func("dag", "DirectedTargetGraph", "GetNodes")
+		for _, k := range cc {
+			whole, what := getNodes != nil, "anchor-unresolved: DirectedTargetGraph.GetNodes"
+			for _, a := range k.Common().Args {
+				if engine.TypeKey(a.Type()) != "model.BuildNodeMap" {
+					continue
+				}
+				for _, o := range engine.Origins(a) {
+					call, _ := engine.CallOf(o)
+					if call == nil || call.Common().StaticCallee() != getNodes || len(call.Common().Args) == 0 {
+						whole, what = false, "the constraint check is not given graph.GetNodes() of the loaded graph"
+						continue
+					}
+					recv := call.Common().Args[0]
+					fromParam := false
+					for _, ro := range engine.Origins(recv) {
+						if _, isP := ro.(*ssa.Parameter); isP {
+							fromParam = true
+						} else if !graphFromLoader(c, recv, loaders, 0) {
+							fromParam = false
+							break
+						} else {
+							fromParam = true
+						}
+					}
+					if !fromParam {
+						whole, what = false, "the constraint check runs over the nodes of a derived graph (a selected subgraph, say), not of the loaded one"
+					}
+				}
+			}
+			c.Require(whole, "R11a", "constraints-cover-whole-graph/"+fname, "the constraint check receives GetNodes() of the graph the driver was given", what+": a defect in a target outside that subset (a testonly dependency, an escaping output) is not reported and the build proceeds", c.P.InstrPos(k))
+		}
 		// callers pass a loader-produced graph
 		for _, cs := range c.G.CallersOf(fn) {
 			okG := false
@@ -734,4 +769,91 @@ func graphFromLoader(c *Check, v ssa.Value, loaders []*ssa.Function, depth int) 
 		}
 	}
 	return true
+}
+
+// cleanPathValue: every origin of v is the result of filepath.Clean / filepath.Join (which cleans), a constant,
+// or of a first-party helper all of whose returns are.
+func cleanPathValue(v ssa.Value, depth int) (bool, string) {
+	for _, o := range engine.Origins(v) {
+		if o == nil {
+			continue
+		}
+		if _, isK := o.(*ssa.Const); isK {
+			continue
+		}
+		call, _ := engine.CallOf(o)
+		if call == nil {
+			return false, "a value that is not the result of a cleaning call (" + o.Name() + ")"
+		}
+		switch engine.CalleeName(call) {
+		case "path/filepath.Clean", "path/filepath.Join", "path.Clean", "path.Join":
+			continue
+		}
+		h := call.Common().StaticCallee()
+		if h == nil || len(h.Blocks) == 0 || depth >= 3 {
+			return false, "the result of " + engine.CalleeName(call)
+		}
+		for _, r := range engine.Returns(h) {
+			if len(r.Results) != 1 {
+				return false, "the result of " + engine.CalleeName(call)
+			}
+			if ok, what := cleanPathValue(r.Results[0], depth+1); !ok {
+				return false, h.Name() + " can return " + what
+			}
+		}
+	}
+	return true, ""
+}
+
+// R11j: the conflict detector compares lexically normalised paths. Overlap and equality of output paths are
+// decided on strings (map key, prefix test); two spellings of one path (./x and x, a//b and a/b, dist/ and
+// dist) are one location for the targets that write them.
+func ruleR11j(c *Check) {
+	c.Rule("R11j", "every path the conflict detector records for comparison (string fields of its record type) is the result of filepath.Clean / filepath.Join, directly or through a helper all of whose returns are: two spellings of one location compare equal", 2)
+	var det *ssa.Function
+	if bg := c.P.Func("analysis", "", "BuildGraph"); bg != nil {
+		for _, s := range engine.SitesIn(bg) {
+			for _, f := range c.G.Callees[s] {
+				if engine.InPackage(f, "analysis") && engine.ErrResultIndex(f.Signature) >= 0 && f != bg {
+					det = f
+				}
+			}
+		}
+	}
+	if det == nil {
+		c.Unknown("R11j", "anchor/conflict-detector", "anchor-unresolved", "-")
+		return
+	}
+	region := regionOf(c, det)
+	n := 0
+	for _, f := range c.P.Funcs {
+		if !(region[f] || region[engine.TopFunc(f)]) {
+			continue
+		}
+		for _, b := range f.Blocks {
+			for _, in := range b.Instrs {
+				st, ok := in.(*ssa.Store)
+				if !ok || !isStringType(st.Val.Type()) {
+					continue
+				}
+				fa, ok := st.Addr.(*ssa.FieldAddr)
+				if !ok {
+					continue
+				}
+				pt, ok := fa.X.Type().Underlying().(*types.Pointer)
+				if !ok {
+					continue
+				}
+				named, ok := pt.Elem().(*types.Named)
+				if !ok || named.Obj().Pkg() == nil || !strings.HasSuffix(named.Obj().Pkg().Path(), "/analysis") {
+					continue
+				}
+				n++
+				fieldName := named.Underlying().(*types.Struct).Field(fa.Field).Name()
+				key := "compared-path-clean/" + named.Obj().Name() + "." + fieldName + "#" + strconv.Itoa(n)
+				okClean, what := cleanPathValue(st.Val, 0)
+				c.Require(okClean, "R11j", key, "the recorded path is the result of filepath.Clean/Join", "the conflict detector records "+what+": a path spelled ./x, a//b or dist/ does not compare equal to (or within) x, a/b, dist, so two unordered targets that write the same location are accepted", c.P.InstrPos(st))
+			}
+		}
+	}
 }
